@@ -129,7 +129,9 @@ func crashCheck(run *vf.Run, u gmodel.Universe, s ghState, op gmodel.Op, cs *cra
 		}
 		// (1) self-consistency
 		rec := reconstruct(obs, u)
+		consistent := true
 		for _, m := range untainted(gmodel.Diff(rec.Observe(u), obs), s.taint) {
+			consistent = false
 			run.Report(vf.Violation{Sig: fmt.Sprintf("crash|%s|inconsistent|%s|%s", op.Kind, m.Comp, listDirection(m.Want, m.Got)),
 				Detail: fmt.Sprintf("history [%s], crash before write %d/%d of the last call, reopen: %s %s is %s but the surviving elements imply %s", histString(hist), i, n, m.Comp, m.Item, m.Got, m.Want),
 				Replay: rep})
@@ -165,6 +167,42 @@ func crashCheck(run *vf.Run, u gmodel.Universe, s ghState, op gmodel.Op, cs *cra
 								Replay: rep})
 						}
 					}
+				}
+			}
+		}
+		// (4) "every later operation behaves as on a server that never stopped": write a fresh vertex and a
+		// fresh edge into every graph that survived, then everything observable (label scans and label
+		// listings included) must again equal what the surviving elements plus the new ones imply
+		u2 := u
+		u2.VIDs = append(append([]string{}, u.VIDs...), "p")
+		u2.EIDs = append(append([]string{}, u.EIDs...), "pe")
+		rec2 := rec.Clone()
+		probed := false
+		for _, gn := range u.Graphs {
+			if _, ok := rec2[gn]; !ok || !consistent {
+				continue // a store that is already inconsistent has been reported by (1)
+			}
+			for _, pop := range []gmodel.Op{
+				{Kind: "AddVertex", G: gn, Elems: []gmodel.Elem{{ID: "p", Label: "P"}}},
+				{Kind: "AddEdge", G: gn, Elems: []gmodel.Elem{{Edge: true, ID: "pe", From: "p", To: "p", Label: "x"}}},
+			} {
+				if err, pan := gmodel.ApplyDB(db, pop); err != nil || pan != "" {
+					run.Report(vf.Violation{Sig: "crash|" + op.Kind + "|post-crash-write-refused", Detail: fmt.Sprintf("history [%s], crash before write %d/%d, reopen: %s fails: %v %s", histString(hist), i, n, pop, err, pan), Replay: rep})
+					continue
+				}
+				rec2 = rec2.Apply(pop).Worlds[0]
+				probed = true
+			}
+		}
+		if probed {
+			obs2, opan2 := gmodel.ObserveDB(db, u2)
+			if opan2 != "" {
+				run.Report(vf.Violation{Sig: "crash|" + op.Kind + "|post-crash-write|observe-panic", Detail: fmt.Sprintf("history [%s], crash before write %d/%d, reopen, new vertex p and edge pe: observation panicked: %s", histString(hist), i, n, opan2), Replay: rep})
+			} else {
+				for _, m := range untainted(gmodel.Diff(rec2.Observe(u2), obs2), s.taint) {
+					run.Report(vf.Violation{Sig: fmt.Sprintf("crash|%s|post-crash-write|%s|%s", op.Kind, m.Comp, listDirection(m.Want, m.Got)),
+						Detail: fmt.Sprintf("history [%s], crash before write %d/%d of the last call, reopen, then a new vertex p and edge pe in every surviving graph: %s %s is %s but the elements imply %s", histString(hist), i, n, m.Comp, m.Item, m.Got, m.Want),
+						Replay: rep})
 				}
 			}
 		}
